@@ -87,6 +87,9 @@ def run(ctx):
             for _ in range(3):
                 kk = int(rng.integers(1, k + 1))
                 reqs.append([covered[int(i)] for i in rng.permutation(k)[:kk]])
+            # a channel named more than once in the request is still converted with its own curve, once
+            base = [covered[int(i)] for i in rng.permutation(k)[:int(rng.integers(1, k + 1))]]
+            reqs.append(base + [base[0]] + ([base[-1]] if rng.random() < 0.5 else []))
             for req in reqs:
                 rq = None if req is None else spell(rng, s, req)
                 if rq is not None and len(rq) == 1 and rng.random() < 0.5:
